@@ -250,8 +250,8 @@ NATIVE_TWINS = {
             'EXHAUSTIVE for rook and bishop over every subset of the relevance mask on every square (102,400 + 5,248 cases); queen / knight / king x 64 squares x 24 pseudo-random blocker sets; pawns of both colours x 48 squares: the reported attack map equals the walked geometry (no wrap-around, rays stop at the first blocker)'),
     'C18': ('c18_score_model', None,
             'every (piece, colour) alone on every square, 3000 pseudo-random placements of up to 14 men, nine queens: score == -score(colour-swapped rotated position), |score| below every mate score; stalemate 0 and strictly better quicker mates at remaining depths 0..255'),
-    'C14': ('c14_c15_game_model', ['coordinate_pairs_accepted_iff_legal_played_exactly_rejected_without_effect', 'typed_labels_accepted_iff_legal_played_exactly_rejected_without_effect'],
-            '5 positions x all 4096 coordinate pairs (accepted iff legal, successor board and history on acceptance, nothing changed on rejection); notation strings, bounded only: 7 games x 12 plies typed as labels (3 crafted lines: tempo loss twice, two knights on b1/e4 reaching d2; labels of a position pairwise distinct), near-miss labels (of the other side, of the previous position, with the case of the first letter flipped) rejected without effect'),
+    'C14': ('c14_c15_game_model', ['coordinate_pairs_accepted_iff_legal_played_exactly_rejected_without_effect', 'typed_labels_accepted_iff_legal_played_exactly_rejected_without_effect', 'every_listed_label_plays_its_own_move'],
+            '5 positions x all 4096 coordinate pairs (accepted iff legal, successor board and history on acceptance, queen for a promoting pair, nothing changed on rejection); notation strings, bounded only: every listed label of 7 positions (incl. under-promotions of both colours) plays its own move; 7 games x 12 plies typed as labels (3 crafted lines: tempo loss twice, two knights on b1/e4 reaching d2; labels of a position pairwise distinct), near-miss labels (of the other side, of the previous position, with the case of the first letter flipped) rejected without effect'),
     # not a bounded twin but an EXHAUSTIVE evaluation of this build's book data (C15, second sentence); run in both tiers
     'C15:book': ('c15_book_lines', None,
                  'EXHAUSTIVE for the data of this build: every path of the compiled opening book and every line of opening_lines.txt'),
